@@ -5,12 +5,6 @@ Import ListNotations.
 From Verif Require Import Model.Val Model.PlanSpec Model.TetriModel Proofs.TetriP Proofs.TetriPSum.
 Open Scope Z_scope.
 
-(* request of a running task on worker index w for resource r *)
-Definition running_req (x : ttask) (w r : Z) : Z :=
-  match tt_state x with
-  | SRunning w' s _ => if w' =? w then rget (st_req s) r else 0
-  | _ => 0
-  end.
 
 (* well-formedness of an instance: what the Python objects guarantee by construction (dict keys are
    distinct, quantities are non-negative, a running task has run for part of its runtime, the running
